@@ -47,13 +47,9 @@ def main():
             res = c05.hash_value(dds_hash, DDSException, codes, v)
             c05.check_supported_result(v, res)
             if res[0] == "sig":
-                c = json.dumps(c05.canon(v), sort_keys=True)
-                b = buckets.setdefault(res[1], {})
-                if c not in b:
-                    b[c] = j
-                if len(b) > 1:
-                    a, bb = list(b.values())[:2]
-                    raise common.Violation(f"collision: {dec(a)!r} and {dec(bb)!r} share signature {res[1]}", {"kind": "collision", "a": a, "b": bb})
+                other = c05.bucket_add(buckets.setdefault(res[1], []), v, j)
+                if other is not None and not c05.known_collision(dec(other), v):
+                    raise common.Violation(f"collision: {dec(other)!r} and {v!r} share signature {res[1]}", {"kind": "collision", "a": other, "b": j})
                 if dds_hash(v) != res[1]:
                     raise common.Violation(f"hash of {v!r} not stable within a process", {"kind": "total", "value": j})
         except common.Violation as viol:
